@@ -42,22 +42,101 @@ def ssl2_header(ctx, report):
     report.rule('C06.R4', 'SSL 2.0 record header: 2 bytes, MSB set, 15 bit length of what follows')
     c = ctx.model.cls('SslRecord')
     report.count('C06.R4', 2)
-    comp = ctx.canon.canon(c, 'compose')
-    us = [e for e in comp.elements if e.kind == 'u']
-    f = c.methods['compose']
-    if not us or us[0].w != 2:
-        report.add('C06.R4', f.construct + '@header', 'composer does not start with a 2 byte header')
-        return
+    from ..symeval import NotEvaluable, evaluate
     from ..values import Sym, show
-    v = us[0].val
-    ok = isinstance(v, Sym) and v.op == 'or' and 32768 in v.args and any(isinstance(a, Sym) and a.op == 'len' for a in v.args)
-    if not ok:
-        report.add('C06.R4', f.construct + '@header', 'header value is %s, expected (length of the body) | 0x8000' % show(v))
-    link_ok = False
-    for a in (v.args if isinstance(v, Sym) else ()):
-        if isinstance(a, Sym) and a.op == 'len':
-            link_ok = True
+    comp = ctx.canon.canon(c, 'compose')
+    f = c.methods['compose']
+    head, width = [], 0
+    for e in comp.elements:
+        if e.kind != 'u' or width >= 2:
+            break
+        head.append(e)
+        width += e.w
+    if width != 2:
+        report.add('C06.R4', f.construct + '@header', 'composer does not start with a 2 byte header')
+    else:
+        # tabulate the header bytes over body lengths on both sides of every bit boundary of the 15 bit length
+        def leaf_for(n):
+            def leaf(v):
+                if isinstance(v, Sym) and v.op in ('len', 'clen', 'composed_length'):
+                    return n
+                raise NotEvaluable(show(v))
+            return leaf
+        try:
+            for n in (0, 1, 255, 256, 259, 16383, 16384, 20033, 32767):
+                report.count('C06.R4')
+                got = b''
+                for e in head:
+                    got += (evaluate(e.val, leaf_for(n)) & ((1 << (8 * e.w)) - 1)).to_bytes(e.w, 'big')
+                want = (n | 0x8000).to_bytes(2, 'big')
+                if got != want:
+                    report.add('C06.R4', f.construct + '@header-value',
+                               'a body of %d bytes is announced by the header %s, the specification says %s' % (n, got.hex(), want.hex()))
+                    break
+        except NotEvaluable as e:
+            report.add('C06.R4', f.construct + '@header', 'header value is not a function of the body length: %s' % e)
+    ssl2_parse_header(ctx, report, c)
+
+
+def ssl2_parse_header(ctx, report, c):
+    """parser side of R4, decided by tabulating the extracted header arithmetic over every value of the first header byte
+    (draft-hickman-netscape-ssl-00 5.1): MSB set -> 2 byte header, RECORD-LENGTH = ((b0 & 0x7f) << 8) | b1, no padding;
+    MSB clear -> 3 byte header, RECORD-LENGTH = ((b0 & 0x3f) << 8) | b1 (0x40 is IS-ESCAPE), PADDING = third byte"""
+    from ..symeval import NotEvaluable, evaluate
+    from ..trace import Alt, Op, Raise, walk
+    from ..values import FieldV, Sym, show
     p = c.methods['_parse']
-    src = ast.unparse(p.node)
-    if '& 128' not in src or '& 127' not in src or '2 ** 8' not in src:
-        report.add('C06.R4', p.construct + '@header', 'parser does not split the header into MSB flag and 15 bit length')
+    report.touch(p)
+    res = ctx.canon.layout(c, 'parse').result
+    nodes = list(walk(res.block))
+    ops = [n for n in nodes if isinstance(n, Op) and n.side == 'parse']
+    u1 = [o for o in ops if o.prim == 'parse_numeric' and o.args.get('size') == 1]
+    if len(u1) < 3:
+        report.add('C06.R4', p.construct + '@header', 'parser does not read the header as single bytes (2 or 3 byte form)')
+        return
+    k0, k1 = u1[0].args.get('name'), u1[1].args.get('name')
+    length = None
+    for n in nodes:
+        if isinstance(n, Alt) and isinstance(n.cond, Sym) and n.cond.op == 'cmp' and n.cond.args[0] == '>' and \
+                any(isinstance(x, Raise) and 'NotEnoughData' in show(x.exc) for x in walk(n.then)):
+            length = n.cond.args[1]
+            break
+    pad_ops = [o for o in ops if o.prim == 'parse_raw' and o.args.get('name') == 'padding']
+    if length is None or not pad_ops:
+        report.add('C06.R4', p.construct + '@header', 'cannot find the declared record length check / the padding read of the SSL 2.0 record parser')
+        return
+    pad = pad_ops[0].args.get('size')
+    PADV = 7
+
+    def leaf_for(b0, b1):
+        def leaf(v):
+            if isinstance(v, FieldV):
+                if v.key == k0:
+                    return b0
+                if v.key == k1:
+                    return b1
+                if v.op is not None and v.op.prim == 'parse_numeric' and v.op.args.get('size') == 1:
+                    return PADV
+            raise NotEvaluable(show(v))
+        return leaf
+    try:
+        for b0 in range(256):
+            for b1 in (0, 1, 0x41, 0xff):
+                report.count('C06.R4')
+                got = evaluate(length, leaf_for(b0, b1))
+                gpad = evaluate(pad, leaf_for(b0, b1))
+                want = ((b0 & 0x7f) << 8 | b1) if b0 & 0x80 else ((b0 & 0x3f) << 8 | b1)
+                wpad = 0 if b0 & 0x80 else PADV
+                form = '2-byte' if b0 & 0x80 else '3-byte'
+                if got != want:
+                    report.add('C06.R4', p.construct + '@record-length[%s]' % form,
+                               'header bytes %02x %02x: RECORD-LENGTH computed as %d, the specification says %d' % (b0, b1, got, want))
+                if gpad != wpad:
+                    report.add('C06.R4', p.construct + '@padding[%s]' % form,
+                               'header bytes %02x %02x: %s padding bytes skipped, the specification says %s' % (
+                                   b0, b1, gpad, 'the value of the third header byte' if wpad else 0))
+    except NotEvaluable as e:
+        report.add('C06.R4', p.construct + '@header', 'record length / padding is not a function of the header bytes: %s' % e)
+        return
+    report.sample({'rule': 'C06.R4', 'parser_length_expr': show(length), 'padding_expr': show(pad),
+                   'tabulated': '256 values of byte 0 x 4 values of byte 1, both header forms'})
